@@ -12,7 +12,53 @@ fn scaled(x: f32) -> Option<i64> {
     (s.is_finite() && s.fract() == 0.0 && s.abs() < (1u64 << 30) as f64).then_some(s as i64)
 }
 
+/// A large file given by its parameters: nv vertices "v <i> 0 0" (i = 0, 1, ..), one face f (1-based
+/// indices), the face line first (ff = 1) or last.  Only a summary is recorded.
+fn exec_big(case: &Value) -> Value {
+    let mut e = case.clone();
+    let nv = gi(case, "nv") as usize;
+    let f: Vec<i64> = case["f"].as_array().unwrap().iter().map(|x| x.as_i64().unwrap()).collect();
+    let fl = format!("f {} {} {}\n", f[0], f[1], f[2]);
+    let mut text = String::with_capacity(nv * 12 + 32);
+    if gi(case, "ff") == 1 {
+        text += &fl;
+    }
+    for i in 0..nv {
+        text += &format!("v {} 0 0\n", i);
+    }
+    if gi(case, "ff") != 1 {
+        text += &fl;
+    }
+    let bytes = text.into_bytes();
+    let r = if gs(case, "via") == "read_obj" { guard(|| read_obj(&bytes[..])) } else { guard(|| parse_obj(bytes.iter().copied())) };
+    let o = e.as_object_mut().unwrap();
+    let (mut status, mut nvobs, mut vlast, mut faces, mut built) = ("panic", 0usize, vec![0i64; 3], vec![], "none");
+    match r {
+        None => {}
+        Some(Err(_)) => status = "err",
+        Some(Ok(b)) => {
+            status = "ok";
+            nvobs = b.mesh.verts.len();
+            if let Some(v) = b.mesh.verts.last() {
+                vlast = vec![v.pos.x() as i64, v.pos.y() as i64, v.pos.z() as i64];
+            }
+            faces = b.mesh.faces.iter().map(|t| json!(t.0.map(|i| i.min(1 << 30)))).collect();
+            let nf = faces.len();
+            built = match guard(move || b.build()) { Some(m) if m.faces.len() == nf && m.verts.len() == nvobs => "ok", Some(_) => "changed", None => "panic" };
+        }
+    }
+    o.insert("status".into(), json!(status));
+    o.insert("nvobs".into(), json!(nvobs));
+    o.insert("vlast".into(), json!(vlast));
+    o.insert("faces".into(), json!(faces));
+    o.insert("built".into(), json!(built));
+    e
+}
+
 pub fn exec(case: &Value) -> Value {
+    if case.get("nv").is_some() {
+        return exec_big(case);
+    }
     let mut e = case.clone();
     let bytes: Vec<u8> = case["bytes"]
         .as_array()
@@ -265,6 +311,21 @@ fn mutate(rng: &mut Rng, mut f: Vec<u8>) -> Vec<u8> {
 }
 
 pub fn gen(args: &Args, out: &mut dyn Write) {
+    if args.rest.first().map(|s| s.as_str()) == Some("big") {
+        // vertex counts around 2^8 and 2^16, the face at and just beyond the end of the list
+        let mut k = 0;
+        for nv in [255i64, 256, 257, 65535, 65536, 65537, 70000] {
+            for f in [[nv, nv - 1, 1], [1, nv, 2], [nv + 1, 1, 2], [2, 1, nv + 1], [nv - 1, nv - 2, nv], [256, 257, 1], [65536, 65537, 1], [1, 2, 65536]] {
+                for ff in [0, 1] {
+                    if (k + ff) % 2 == 0 || nv < 1000 {
+                        writeln!(out, "{}", json!({"k": format!("big{k}-{ff}"), "nv": nv, "f": f, "ff": ff, "via": if k % 3 == 0 { "read_obj" } else { "parse_obj" }})).unwrap();
+                    }
+                }
+                k += 1;
+            }
+        }
+        return;
+    }
     let thorough = args.tier == "thorough";
     let n = args.n.unwrap_or(if thorough { 60000 } else { 5000 });
     let mut rng = Rng::new(args.seed ^ 0x0B1);
